@@ -377,6 +377,8 @@ package tree
 //@ define INV() bool = INV1() && INV2() && INV3() && INV5() && OWN() && INVE()
 //@ define adjacent(a *Node, b *Node) bool = exists i int :: {a.neigh[i]} 0 <= i && i < len(a.neigh) && a.neigh[i] == b
 
+//@ define cnunshared(parent *Node, child *Node) bool = parent != child && (arr(parent.neigh) == 0 || arr(parent.neigh) != arr(child.neigh)) && (arr(parent.br) == 0 || arr(parent.br) != arr(child.br))
+//@ define cnlocal(parent *Node, child *Node) bool = parent != child && I1(parent) && I1(child) && (arr(parent.neigh) == 0 || arr(parent.neigh) != arr(child.neigh)) && (arr(parent.br) == 0 || arr(parent.br) != arr(child.br))
 //@ define cnpre(parent *Node, child *Node) bool = allocated(parent) && allocated(child) && parent != child && INV() && !adjacent(parent, child) && !adjacent(child, parent)
 
 //@ func (*tree.Tree).ConnectNodes
@@ -384,7 +386,8 @@ package tree
 //@   allocates Edge, []*Node, []*Edge, []string
 //@   assigns parent.neigh, parent.br, child.neigh, child.br, elems(parent.neigh), elems(parent.br), elems(child.neigh), elems(child.br)
 //@   ensures [fresh_branch_from_parent_to_child] fresh(result) && result.left == parent && result.right == child && result.length == -1.0 && result.support == -1.0 && result.pvalue == -1.0 && result.id == -1
-//@   ensures [appended_last_on_both_sides] old(cnpre(parent, child)) ==> deg(parent) == old(deg(parent)) + 1 && deg(child) == old(deg(child)) + 1 && parent.neigh[deg(parent) - 1] == child && parent.br[deg(parent) - 1] == result && child.neigh[deg(child) - 1] == parent && child.br[deg(child) - 1] == result
+//@   ensures [parent_gains_the_child_in_its_last_slot] old(cnunshared(parent, child)) ==> len(parent.neigh) == old(len(parent.neigh)) + 1 && len(parent.br) == old(len(parent.br)) + 1 && parent.neigh[len(parent.neigh) - 1] == child && parent.br[len(parent.br) - 1] == result && (forall k int :: {parent.br[k]} {parent.neigh[k]} 0 <= k && k < old(len(parent.br)) && k < old(len(parent.neigh)) ==> parent.br[k] == old(parent.br[k]) && parent.neigh[k] == old(parent.neigh[k]))
+//@   ensures [appended_last_on_both_sides] old(cnlocal(parent, child)) ==> deg(parent) == old(deg(parent)) + 1 && deg(child) == old(deg(child)) + 1 && parent.neigh[deg(parent) - 1] == child && parent.br[deg(parent) - 1] == result && child.neigh[deg(child) - 1] == parent && child.br[deg(child) - 1] == result
 //@   ensures [earlier_slots_kept] old(cnpre(parent, child)) ==> ((forall k int :: {parent.neigh[k]} {parent.br[k]} 0 <= k && k < old(deg(parent)) ==> parent.neigh[k] == old(parent.neigh[k]) && parent.br[k] == old(parent.br[k])) && (forall k int :: {child.neigh[k]} {child.br[k]} 0 <= k && k < old(deg(child)) ==> child.neigh[k] == old(child.neigh[k]) && child.br[k] == old(child.br[k])))
 //@   ensures [hint_other_nodes_untouched] old(cnpre(parent, child)) ==> (forall n *Node :: {n.neigh} {n.br} allocated(n) && n != parent && n != child ==> n.neigh == old(n.neigh) && n.br == old(n.br))
 //@   ensures [hint_every_old_slot_kept] old(cnpre(parent, child)) ==> (forall n *Node, k int :: {n.neigh[k]} {n.br[k]} {old(n.neigh[k])} {old(n.br[k])} allocated(n) && 0 <= k && k < old(deg(n)) ==> n.neigh[k] == old(n.neigh[k]) && n.br[k] == old(n.br[k]))
@@ -567,7 +570,7 @@ package tree
 //@   allocates Node, []string, []*Node, []*Edge
 //@   assigns nothing
 //@   ensures [fresh_isolated_node] fresh(result) && deg(result) == 0 && len(result.br) == 0 && result.name == "" && len(result.comment) == 0
-//@   ensures [own_fresh_adjacency_storage] fresh_arr(result.neigh) && fresh_arr(result.br) && fresh_arr(result.comment) && arr(result.neigh) != arr(result.br)
+//@   ensures [fresh_adjacency_storage_of_its_own] fresh_arr(result.neigh) && fresh_arr(result.br) && fresh_arr(result.comment) && arr(result.neigh) != arr(result.br)
 //@   ensures [nobody_points_to_it] old(INV2()) ==> forall m *Node, k int :: {m.neigh[k]} allocated(m) && 0 <= k && k < deg(m) ==> m.neigh[k] != result
 //@   ensures [no_branch_ends_at_it] old(INVE()) ==> forall e *Edge :: {e.left} {e.right} allocated(e) ==> e.left != result && e.right != result
 //@   ensures [inv1] old(INV()) && old(ORI()) ==> INV1()
@@ -620,9 +623,11 @@ package tree
 //@   return [merged_branch_support_is_the_larger_one_only_between_two_inner_nodes] e != nil ==> e.support == ((sup1 != -1.0 || sup2 != -1.0) && deg(n1) > 1 && deg(n2) > 1 ? max(sup1, sup2) : -1.0)
 //@   return [when_the_suppressed_node_was_the_root_the_new_root_is_the_upper_end_of_the_merging_branch] e != nil && !dir1 && dir2 ==> e.left == t.root
 
+// recomputes branch bitsets, hash codes, side sizes and node depths: writes those index fields only
 //@ func (*tree.Tree).ReinitInternalIndexes
-//@   flag treeop
 //@   requires t != nil
+//@   allocates bitset.BitSet, iface, []*Node, []*Edge, []string
+//@   assigns Edge.bitset, Edge.hashcodeleft, Edge.hashcoderight, Edge.ntaxleft, Edge.ntaxright, Node.depth, Node.rootdepth, ghost(bs_bits), ghost(bs_len)
 
 // RemoveTips (property C06): exactly the tips whose membership in the given names differs from `revert` are
 // removed, and the tip-name index is rebuilt after the last removal
@@ -663,3 +668,132 @@ package tree
 //@   ensures [the_listed_prefix_is_kept] len(*edges) >= old(len(*edges)) && (forall k int :: {(*edges)[k]} {old((*edges)[k])} 0 <= k && k < old(len(*edges)) ==> (*edges)[k] == old((*edges)[k]))
 //@   loop 1
 //@     invariant [the_listed_prefix_is_kept] len(*edges) >= old(len(*edges)) && (forall k int :: {(*edges)[k]} 0 <= k && k < old(len(*edges)) ==> (*edges)[k] == old((*edges)[k]))
+
+// ---------------------------------------------------------------------------
+// UnRoot (property C05): the bifurcating root is suppressed, its two branches
+// count as one: the merging branch carries the summed length and the larger
+// support (between two inner nodes), and points away from the new root
+// ---------------------------------------------------------------------------
+
+//@ func (*tree.Tree).UnRoot
+//@   flag noframe
+//@   requires t != nil && allocated(t.root) && INV()
+//@   ensures [an_unrooted_tree_is_left_alone] old(deg(t.root)) != 2 ==> t.root == old(t.root) && deg(t.root) == old(deg(t.root))
+//@   ensures [new_root_is_the_first_child_of_the_old_root_unless_that_is_a_tip] old(deg(t.root)) == 2 ==> t.root == (old(deg(t.root.neigh[0])) == 1 ? old(t.root.neigh[1]) : old(t.root.neigh[0]))
+//@   ensures [old_root_is_dead] old(deg(t.root)) == 2 ==> deg(old(t.root)) == 0 && len(old(t.root).br) == 0
+//@   ensures [new_root_keeps_a_branch] old(deg(t.root)) == 2 ==> deg(t.root) >= 1
+//@   ensures [merging_branch_is_fresh] old(deg(t.root)) == 2 ==> fresh(t.root.br[deg(t.root) - 1])
+//@   ensures [merging_branch_points_away_from_the_new_root] old(deg(t.root)) == 2 ==> t.root.br[deg(t.root) - 1].left == t.root
+//@   ensures [merging_branch_carries_the_summed_length_when_either_is_present] old(deg(t.root)) == 2 ==> t.root.br[deg(t.root) - 1].length == (old(t.root.br[0].length) != -1.0 || old(t.root.br[1].length) != -1.0 ? max(0.0, old(t.root.br[0].length)) + max(0.0, old(t.root.br[1].length)) : -1.0)
+
+// ---------------------------------------------------------------------------
+// Least common ancestor (property C05): the number of foreign tips reported
+// for a subtree is the sum over its children (plus one for a foreign tip),
+// whether or not the subtree contains a wanted tip
+// ---------------------------------------------------------------------------
+
+//@ func (*tree.Tree).LeastCommonAncestorRecur
+//@   flag noframe
+//@   requires t != nil && current != nil
+//@   ensures [counts_are_non_negative_without_error] result5 == nil ==> result2 >= 0 && result3 >= 0
+//@   loop 1
+//@     invariant [counts_are_non_negative] common >= 0 && different >= 0 && tmpdiff >= 0
+//@     step [wanted_and_foreign_tips_of_each_child_are_added_exactly_once] n != prev ==> next(common) == common + com && next(different) + next(tmpdiff) == different + tmpdiff + diff
+//@     step [the_side_we_came_from_adds_nothing] n == prev ==> next(common) == common && next(different) == different && next(tmpdiff) == tmpdiff
+//@   return [when_the_group_is_complete_here_foreign_tips_of_mixed_children_only] allFound ==> result3 == atexit(1, different) && result2 == atexit(1, common) && result0 == current
+//@   return [otherwise_every_foreign_tip_below_is_reported] !allFound && result5 == nil && result0 == nil && !result4 ==> result3 == atexit(1, different) + atexit(1, tmpdiff) && result2 == atexit(1, common)
+
+// ---------------------------------------------------------------------------
+// Re-rooting (property C05): only the root pointer and the orientation of
+// branches change - every branch keeps its two ends (as a set), and no other
+// field of any node or branch is written by the re-orientation
+// ---------------------------------------------------------------------------
+
+//@ define sameends(e *Edge) bool = (e.left == old(e.left) && e.right == old(e.right)) || (e.left == old(e.right) && e.right == old(e.left))
+
+//@ define LIVEBR() bool = forall m *Node, k int :: {m.br[k]} allocated(m) && 0 <= k && k < len(m.br) ==> allocated(m.br[k]) && allocated(m.br[k].left) && allocated(m.br[k].right)
+
+//@ func (*tree.Tree).ReorderEdges
+//@   requires t != nil && allocated(n) && LIVEBR()
+//@   ensures [listed_branches_keep_two_live_ends] LIVEBR()
+//@   allocates []*Edge, iface
+//@   assigns Edge.left, Edge.right, cell(reversed), elems("*Edge")
+//@   ensures [every_branch_keeps_its_two_ends] forall e *Edge :: {e.left} {e.right} sameends(e)
+//@   ensures [adjacency_arrays_of_nodes_untouched] forall m *Node :: {m.br} allocated(m) ==> m.br == old(m.br) && m.neigh == old(m.neigh)
+//@   loop 1
+//@     assigns Edge.left, Edge.right, cell(reversed), elems("*Edge")
+//@     invariant [every_branch_keeps_its_two_ends] forall e *Edge :: {e.left} {e.right} sameends(e)
+//@     invariant [listed_branches_keep_two_live_ends] LIVEBR() && (forall m *Node :: {m.br} allocated(m) ==> m.br == old(m.br))
+
+//@ func (*tree.Tree).reroot_nocheck
+//@   requires t != nil && allocated(n) && LIVEBR()
+//@   allocates []*Edge, iface
+//@   assigns t.root, Edge.left, Edge.right, elems("*Edge")
+//@   ensures [a_tip_is_refused_and_nothing_changes] old(deg(n)) < 2 ==> result != nil && t.root == old(t.root) && (forall e *Edge :: {e.left} {e.right} e.left == old(e.left) && e.right == old(e.right))
+//@   ensures [the_node_becomes_the_root] old(deg(n)) >= 2 ==> t.root == n
+//@   ensures [every_branch_keeps_its_two_ends] forall e *Edge :: {e.left} {e.right} sameends(e)
+
+//@ func (*tree.Tree).Nodes
+//@   requires t != nil
+//@   allocates []*Node
+//@   assigns nothing
+//@   ensures [fresh_storage] fresh_arr(result)
+
+//@ func (*tree.Tree).Reroot
+//@   flag noframe
+//@   requires t != nil && allocated(n) && LIVEBR()
+//@   ensures [a_tip_is_refused] old(deg(n)) < 2 ==> result != nil && t.root == old(t.root)
+//@   ensures [on_success_the_node_is_the_root] result == nil ==> t.root == n
+//@   ensures [on_error_the_root_is_unchanged_unless_reordering_failed] result != nil ==> t.root == old(t.root) || t.root == n
+//@   ensures [every_branch_keeps_its_two_ends] forall e *Edge :: {e.left} {e.right} sameends(e)
+//@   ensures [lengths_supports_and_adjacency_are_not_written] forall e *Edge :: {e.length} {e.support} allocated(e) ==> e.length == old(e.length) && e.support == old(e.support) && e.pvalue == old(e.pvalue)
+//@   ensures [adjacency_is_not_written] forall m *Node :: {m.neigh} {m.br} allocated(m) ==> m.neigh == old(m.neigh) && m.br == old(m.br) && m.name == old(m.name)
+
+// Random rotation of the neighbours of a node (properties C05, C20): pairs (neighbour, branch) stay together,
+// every slot ends up holding one of the original pairs; the draw is the Fisher-Yates draw rand.Intn(i+1)
+//@ func (*tree.Node).RotateNeighbors
+//@   requires n != nil && len(n.neigh) == len(n.br) && arr(n.neigh) != 0
+//@   assigns elems(n.neigh), elems(n.br), ghost(rand_count), ghost(rand_last), ghost(rand_range)
+//@   call math/rand.Intn [fisher_yates_draw_among_the_first_i_plus_one_slots] a0 == rangeindex + 2
+//@   ensures [every_slot_holds_an_original_pair] forall k int :: {n.neigh[k]} {n.br[k]} 0 <= k && k < len(n.neigh) ==> (exists m int :: {old(n.neigh[m])} 0 <= m && m < len(n.neigh) && n.neigh[k] == old(n.neigh[m]) && n.br[k] == old(n.br[m]))
+//@   loop 1
+//@     assigns elems(n.neigh), elems(n.br), ghost(rand_count), ghost(rand_last), ghost(rand_range)
+//@     invariant [every_slot_holds_an_original_pair] forall k int :: {n.neigh[k]} {n.br[k]} 0 <= k && k < len(n.neigh) ==> (exists m int :: {old(n.neigh[m])} 0 <= m && m < len(n.neigh) && n.neigh[k] == old(n.neigh[m]) && n.br[k] == old(n.br[m]))
+
+//@ func (*tree.Tree).LeastCommonAncestorUnrooted
+//@   flag treeop
+//@   requires t != nil
+//@   allocates nodeIndex, map[string]*Node, []*Node, []*Edge, iface
+
+// Rooting on an outgroup (property C05): when the outgroup is kept, the new root is a fresh node in the middle of
+// the separating branch: both halves get half of its length (when it has one) and both carry its support
+//@ func (*tree.Tree).RerootOutGroup
+//@   flag noframe
+//@   flag lightcalls
+//@   flag countcalls
+//@   requires t != nil
+//@   call (*tree.Edge).SetLength [each_half_gets_half_of_the_length_of_the_separating_branch] a1 == rootedge.length / 2.0 && rootedge.length != -1.0
+//@   call (*tree.Edge).SetSupport [each_half_carries_the_support_of_the_separating_branch] a1 == rootedge.support
+//@   call (*tree.Tree).reroot_nocheck [both_halves_were_given_the_support_and_the_length_when_there_is_one] !removeoutgroup ==> ghost(ncalls_SetSupport) == old(ghost(ncalls_SetSupport)) + 2 && (rootedge.length != -1.0 ==> ghost(ncalls_SetLength) == old(ghost(ncalls_SetLength)) + 2)
+
+//@ func (*tree.Tree).nodesRecur
+//@   requires t != nil && nodes != nil
+//@   allocates []*Node
+//@   assigns cell(nodes), elems("*Node")
+
+//@ func tree.MaxLengthPath
+//@   requires cur != nil
+//@   allocates []*Edge, iface
+//@   assigns nothing
+
+// Midpoint rooting (property C05): no fault when every path has length zero (an error is returned); the new root
+// cuts the chosen branch into two parts whose lengths add up to the old length, both carrying its support
+//@ func (*tree.Tree).RerootMidPoint
+//@   flag noframe
+//@   flag lightcalls
+//@   requires t != nil
+//@   call (*tree.Tree).Reroot [the_cut_keeps_the_total_length_and_the_support_of_the_branch] e.length + e2.length == l && e2.length == cut && e.support == b && e2.support == b && a1 == newroot
+//@   loop 1
+//@     invariant [a_longest_path_candidate_has_positive_length] curlength >= 0.0 && (len(potentialedges) > 0 ==> curlength > 0.0)
+//@   loop 2
+//@     invariant [scan_position_within_the_path] 0 <= i && i <= len(potentialedges) && (i == 0 ==> len == 0.0)
